@@ -18,6 +18,21 @@ CHECKS = {
  "C04": ("runtime monitor: sequential cursor model (shadow state) checked after every Codec.Decode / DecodeBlocked step, over generated streams x arrival schedules x injected read faults",
          "Exploration with a shadow model: frame lists (frames 4..64 KiB, bodies salted with plausible prefixes) are delivered under every single cut (and cut pair) for short streams, 1-octet drip and random multi-cut; the blocking extractor is run with a fault (EOF, ErrUnexpectedEOF, custom error) at every stream position; prefixes 0..3 are placed at every frame position. After each call the returned frame, the error and Size() are compared with the cursor model.",
          "Trusted: the harness ConnReader (documented bufio-like contract). Both CMPPCodec and SMPPCodec.", "DESIGN.md §5 C04"),
+ "C05": ("runtime monitor: round-trip-or-refuse oracle with exact reference encodings (ASCII, UTF-16BE, TS 23.038 GSM-7) over every Unicode scalar value in short contexts and biased random strings; unsupported coding numbers enumerated",
+         "Exploration, exhaustive on a sub-space: all 1,112,064 Unicode scalar values alone and in two (thorough: four) contexts through all six codecs, packed GSM-7 characters at every position of 8/9/16-septet frames, random strings biased to each repertoire edge, the eight protocol-level encoder/decoder pairings, all 256 CMPP and -2..300 SMPP coding numbers for the refusal clause.",
+         "Trusted: unicode/utf16, spec/gsm7_table.json; Latin-1 and GB18030 repertoires are the upstream x/text tables (only round-trip-or-refuse is judged).", "DESIGN.md §5 C05"),
+ "C06": ("runtime monitor: reference-decoder oracle over split results (headers stripped, payloads concatenated, independent decoder of the reported coding; packed GSM-7 unpacked with handset-style septet counts)",
+         "Exploration: texts constructed to hit the 140/160 thresholds and multiples of 134/153 +-3 with multi-unit characters at every offset -3..+3 of part boundaries, up to beyond 255 parts, x all valid and several invalid CMPP/SMPP coding numbers x reference byte, through EncodeCMPPContentAndSplit, EncodeSMPPContentAndSplit and Build; content equality, reported coding and the single-SMS clause are judged per result.",
+         "Trusted: reference encoders for ASCII/UCS-2/GSM-7; library codec verdict for Latin-1/GB18030 representability.", "DESIGN.md §5 C06"),
+ "C07": ("runtime monitor: size/header/part-count oracle against a greedy whole-character splitter model; exhaustive enumeration of ParseLongSmsContent over all 2^24 6-octet headers and all 2^16 16-bit references",
+         "Exploration + exhaustive parser enumeration: every split result of the C06 workload is judged for part sizes, non-empty parts, header octets, part count <= model, refusal beyond 255 parts, and parser/producer agreement; the parser is enumerated over every (ref,total,seq) triple, every 16-bit reference and single-octet near misses.",
+         "Trusted: the greedy model. Between blind count <= 255 < whole-character count either refusal or success is accepted (depends on C14's open finding).", "DESIGN.md §5 C07, §7"),
+ "C08": ("runtime monitor: exhaustive differential oracle against a code-point-keyed TS 23.038 table and a bit-stream definition of septet packing; cross-entry-point agreement monitor",
+         "Exhaustive on the enumerated sub-spaces (all 1,114,112 code points, all 65,536 septet pairs, all septet sequences of length 0..3, all sequences <= 8 (quick 6) over the 7-letter branch alphabet, block-boundary triples for lengths 1..40, single-bit wiring for lengths 0..64) plus random sequences to 2000 septets and arbitrary octets through Unpack; every entry point (function pairs, transformers, codecs, validators) is compared with the reference and with the others.",
+         "Trusted: spec/gsm7_table.json written from TS 23.038 (not in doc/), the 15-line bit-stream packer.", "DESIGN.md §5 C08"),
+ "C14": ("runtime monitor: per-part reference decoding of split results (each part decoded on its own), concatenation compared with the original",
+         "Exploration: multi-part texts with escape pairs / surrogate pairs / 2- and 4-octet GB18030 characters started at every offset -3..+3 of every part boundary, every multi-unit coding and entry point; each part is decoded alone by the reference decoder. Eight open known findings (generic splitter cuts blindly for UCS-2, GB18030, unpacked GSM-7); packed GSM-7 holds.",
+         "Trusted: reference decoders; GB18030 per-part decoding = library decoder + re-encode check.", "DESIGN.md §5 C14, §6 #14"),
 }
 NOT_APPLICABLE = {}
 
